@@ -20,7 +20,7 @@ import (
 
 // C15: accounts - what can log in = what is listed = what is on disk (DESIGN §6 C15).
 
-var c15Logins = []string{"alice", "bob", "Carol Smith", "dave.1", "eve-x", "zo\xc3\xab", "UPPER", "x", "trent_2", "mallory+1", ".ops", "..dots", " lead", "trail ", "#hash", "a.yaml"}
+var c15Logins = []string{"jos\x8e", "alice", "bob", "Carol Smith", "dave.1", "eve-x", "zo\xc3\xab", "UPPER", "x", "trent_2", "mallory+1", ".ops", "..dots", " lead", "trail ", "#hash", "a.yaml"}
 
 // passwords made only of 0xFF bytes are left out: on the wire they are all-zero bytes, and bcrypt's cyclic key schedule
 // cannot tell an all-zero key of any length from the empty password (an artefact of the scheme, not of the server)
